@@ -22,9 +22,7 @@ open DoitModel.Run (Name)
     name it declares.  (Without `coversB` the statement is false of the code: `once_needs_covers` below.) -/
 theorem C15_once (inp : Input) (h1 : resolvesB inp = true) (h2 : coversB inp = true) (s : Sys) (hr : Reach inp s) :
     onceOK s.events = true := by
-  rcases once_reach (onceWF_of_bool h1 h2) hr with h | ⟨_, _, h, _⟩
-  · exact h.o
-  · exact h.o
+  exact (once_reach (onceWF_of_bool h1 h2) hr).once
 
 /-- the same as a count: at most one `creator c` event per creator and run -/
 theorem C15_once_count (inp : Input) (h1 : resolvesB inp = true) (h2 : coversB inp = true) (s : Sys)
